@@ -910,7 +910,7 @@ def shards(tier, seed):
     chunk = 6
     for i in range(0, len(SITES), chunk):
         specs.append({"part": "catalogue", "sites": SITES[i:i + chunk], "seed": seed})
-    n, per = (16, 6) if tier == "quick" else (64, 120)
+    n, per = (16, 6) if tier == "quick" else (64, 60)
     for i in range(n):
         specs.append({"part": "random", "n": per, "seed": seed * 1000 + i})
     return specs
